@@ -45,7 +45,7 @@ CONFIG = {
                   'thorough': {'c09.roundtrip': 500000}},
     'must_sig': ['logic:PL', 'logic:LTL', 'logic:CTLS', 'logic:CTL',
                  'ctl:via_ctl_parser', 'arity:3', 'arity:4', 'depth:>=4',
-                 'atoms:dangerous'],
+                 'atoms:dangerous', 'cross:sublogic_to_CTLS'],
     'rule': ('cases = (logic, formula tree, atom naming); enumerated: all '
              'formulas of depth <=2 of each logic over {p,q,true,false} '
              '(quick: depth 2 capped by a seeded sample per level), each '
@@ -63,7 +63,11 @@ CONFIG = {
 
 DANGEROUS = ['Xa', 'Ab', 'trueish', 'U2', '_z', 'not_p', 'Fa', 'G1', 'Ra',
              'Ep', 'orx', 'andy', 'falsehood', 'AX', 'EF', 'AG', 'Until',
-             'x', 'TRUE', 'False', 'NOT', 'A_', 'notp', 'p_or_q', 'XX']
+             'x', 'TRUE', 'False', 'NOT', 'A_', 'notp', 'p_or_q', 'XX',
+             '_', '__', '_1', 'a_1_2', 'p01', 'p1', 'P1', 'a__', 'z9_',
+             'an_atomic_proposition_with_a_very_long_name_of_61_characters_',
+             'A' * 45, 'x' + '_' * 41, 'q' + '0123456789' * 5, 'True', 'tRue',
+             'E_', 'U_', 'R2D2', 'Gg', 'Ff', 'Xx']
 
 _tables = {l: {} for l in LANGS}
 _parsers = {}
@@ -154,6 +158,10 @@ def drive(logic, t, i):
     else:
         check_parse(logic, logic, s, t, case)
         tab = _tables[logic]
+    if logic in ('PL', 'LTL') and i % 3 == 0:
+        # a formula of a sub-logic, printed there, read by the CTL* parser
+        LOG.sig['cross:sublogic_to_CTLS'] += 1
+        check_parse(logic, 'CTLS', s, t, dict(case, via='CTLS parser'))
     LOG.hit('c09.injective')
     prev = tab.get(s)
     if prev is None:
